@@ -1026,3 +1026,38 @@ def fit_post_state(ctx, variant, start, via):
     want_f, want_v = raw_call(ctx, F, tp, te)
     ctx.ensure("estimate=fresh-Krige(final-model)", ctx.eq(got_f, want_f))
     ctx.ensure("variance=fresh-Krige(final-model)", ctx.eq(got_v, want_v))
+
+
+# ---------------------------------------------------------------------------------------
+# (9) external drift at the targets: the value at a grid node, whatever the memory layout of the array
+# ---------------------------------------------------------------------------------------
+@contract(P, "Krige.__call__[ext_drift-on-a-grid]/drift-values-belong-to-grid-nodes-for-every-memory-layout",
+          params={"layout": ["C", "F", "transposed-view", "flat-C-order", "nested-list"], "cls": ["ExtDrift", "Krige+drift"]},
+          functions=["krige/base.py:Krige._pre_ext_drift", "krige/base.py:Krige.__call__"],
+          bounded="native run: 2-D structured 3 x 2 grid, 4 conditioning points, one external drift")
+def ext_drift_layout(ctx, layout, cls):
+    """`ext_drift`: 'the external drift values at the given positions' -- on a structured mesh the value with index
+    (i, j) belongs to the node (x_i, y_j); a Fortran-ordered array or a transposed view holds the same values as its
+    C-ordered copy, and the result equals the unstructured call on the node list in C order"""
+    import gstools as gs
+    from gsvc import symrun as _sr
+    with _sr.native():
+        m = gs.Gaussian(dim=2, len_scale=2.0, var=1.3, nugget=0.05)
+        cpos = [[0.0, 1.0, 3.0, 2.0], [0.5, 2.0, 1.0, 3.0]]
+        cval = [1.0, 2.0, 0.5, -0.7]
+        cext = [0.1, 0.5, -0.3, 0.8]
+
+        def mk():
+            if cls == "ExtDrift":
+                return gs.krige.ExtDrift(m, cpos, cval, cext)
+            return gs.krige.Krige(m, cpos, cval, drift_functions="linear", ext_drift=cext)
+        x, y = np.array([0.5, 1.5, 2.5]), np.array([0.25, 1.25])
+        E = np.array([[0.3, -1.2], [2.0, 0.4], [-0.6, 1.1]])       # E[i, j] at (x_i, y_j)
+        arg = {"C": np.ascontiguousarray(E), "F": np.asfortranarray(E), "transposed-view": np.array(E.T, order="C").T,
+               "flat-C-order": E.reshape(-1).copy(), "nested-list": E.tolist()}[layout]
+        f, v = mk()((x, y), mesh_type="structured", ext_drift=arg)
+        gx, gy = np.meshgrid(x, y, indexing="ij")
+        fu, vu = mk()((gx.reshape(-1), gy.reshape(-1)), ext_drift=E.reshape(-1))
+        ok = (np.shape(f) == (3, 2) and bool(np.allclose(np.reshape(f, -1), fu, rtol=1e-10, atol=1e-12))
+              and bool(np.allclose(np.reshape(v, -1), vu, rtol=1e-10, atol=1e-12)))
+    ctx.ensure("structured-result=unstructured-result-on-the-node-list(C-order)", ok)
